@@ -146,7 +146,7 @@ class Run:
 
     # ------------------------------------------------------------------ final observation + oracle
 
-    def observe(self) -> dict:
+    def observe(self, rng=None) -> dict:
         rig = self.rig
         from pyhap.characteristic import Characteristic
 
@@ -186,7 +186,8 @@ class Run:
                 for c in s.characteristics:
                     chars_live.append((key, acc, c))
         for _, _, c in chars_live:
-            c.getter_callback = (lambda c=c: (hits.append(("r", c)), c.value)[1])
+            # (always-null characteristics store None, which is not a readable value: report 0)
+            c.getter_callback = (lambda c=c: (hits.append(("r", c)), 0 if c.value is None else c.value)[1])
             c.setter_callback = (lambda v, c=c: hits.append(("w", c)))
         resolve = {}
         pairs = []
@@ -257,6 +258,7 @@ class Run:
                         f"{[g[0] for g in got]} (subscribers of the pair expected exactly once)",
                     )
             out_resolve.append(entry)
+        probe_obs = self.multi_read_probes(doc, resolve, hits, rng)
         managers = []
         for key, acc in rig.accessories():
             m = acc.iid_manager
@@ -273,7 +275,139 @@ class Run:
             "accessories": skeleton,
             "managers": managers,
             "resolve": sorted(out_resolve, key=lambda e: e["obj"]),
+            "probes": probe_obs,
         }
+
+    # ------------------------------------------------------------------ multi-id reads
+
+    def gen_probes(self, rng, listed_by_aid) -> List[dict]:
+        """Multi-id read requests over the listed pairs: runs of ids per accessory (as controllers
+        send them), repeated ids, unknown accessories interleaved, some accessories unavailable."""
+        rig = self.rig
+        aids = list(listed_by_aid)
+        bridged = [a for a in aids if a != 1]
+        probes = []
+        # deterministic: a characteristic of each accessory followed by two of the next one, which is unavailable
+        if len(aids) >= 2:
+            ids = []
+            for a, b in zip(aids, aids[1:]):
+                ids.append(list(listed_by_aid[a][0]))
+                ids += [list(p) for p in listed_by_aid[b][:2]]
+            probes.append({"unavailable": bridged[::2], "ids": ids})
+            probes.append({"unavailable": bridged[1::2], "ids": ids})
+        everything = [list(p) for a in aids for p in listed_by_aid[a]]
+        if everything:
+            shuffled = everything[:]
+            rng.shuffle(shuffled)
+            probes.append({"unavailable": [], "ids": shuffled[:60]})
+        for _ in range(3):
+            if not aids:
+                break
+            unav = [a for a in bridged if rng.random() < 0.4]
+            ids = []
+            for _ in range(rng.randrange(3, 11)):
+                x = rng.random()
+                if x < 0.1:
+                    ids += [[rng.choice([40, 99]), rng.randrange(1, 12)] for _ in range(rng.choice([1, 2]))]
+                    continue
+                a = rng.choice(aids)
+                run_ = [list(rng.choice(listed_by_aid[a])) for _ in range(rng.choice([1, 2, 2, 3]))]
+                if rng.random() < 0.2:
+                    run_.append(run_[0])
+                ids += run_
+            probes.append({"unavailable": unav, "ids": ids})
+        return probes
+
+    def multi_read_probes(self, doc, resolve, hits, rng) -> List[dict]:
+        """Oracle on multi-id reads: the entry for a listed pair of an available accessory carries
+        the value of exactly the object the write / event paths reach for that pair; for an
+        unavailable accessory it is a failure entry, never another object's value."""
+        rig = self.rig
+        listed_by_aid: Dict[int, List[tuple]] = {}
+        for a in doc["accessories"]:
+            prs = [(a["aid"], c["iid"]) for s in a["services"] for c in s["characteristics"] if c["iid"] is not None]
+            if a["aid"] is not None and prs and a["aid"] not in listed_by_aid:
+                listed_by_aid[a["aid"]] = prs
+        probes = self.h.get("probes")
+        if probes is None:
+            import random as _random
+
+            probes = self.gen_probes(rng or _random.Random(0), listed_by_aid)
+            self.h["probes"] = probes
+        target = {}  # pair -> object that the single-id read / write / event probes agreed on
+        for info in resolve.values():
+            if info.get("write") is not None and info.get("write") == info.get("read"):
+                target[tuple(info["_pair"])] = info["read"]
+        out = []
+        for pr in probes:
+            flagged = []
+            for key, acc in rig.accessories():
+                if key != 1 and hasattr(acc, "rig_available"):
+                    acc.rig_available = key not in pr["unavailable"]
+                    if not acc.rig_available:
+                        flagged.append(key)
+            ids = [tuple(p) for p in pr["ids"]]
+            del hits[:]
+            st, body = rig.http("GET", "/characteristics?id=" + ",".join(f"{a}.{i}" for a, i in ids))
+            entries = body.get("characteristics") if isinstance(body, dict) else None
+            reads = [c for k2, c in hits if k2 == "r"]
+            view = {"code": st, "entries": None}
+            if st not in (200, 207) or not isinstance(entries, list):
+                self.fail("C17:multi-read-failed", f"GET /characteristics for {ids[:8]}… answered {st}")
+                out.append(view)
+                continue
+            with_value = [e for e in entries if "value" in e]
+            reached = {}
+            if len(with_value) == len(reads):
+                for e, c in zip(with_value, reads):
+                    reached[id(e)] = c
+            else:
+                self.fail(
+                    "C17:multi-read-inconsistent",
+                    f"GET /characteristics for {ids[:8]}… returned {len(with_value)} values but read {len(reads)} characteristics",
+                )
+            view["entries"] = [
+                {k2: v for k2, v in (("aid", e.get("aid")), ("iid", e.get("iid")), ("status", e.get("status")),
+                                    ("obj", rig.num(reached[id(e)]) if id(e) in reached else None)) if v is not None}
+                for e in entries
+            ]
+            pos = 0
+            for aid, iid in ids:
+                acc = rig.accessory(aid)
+                e = entries[pos] if pos < len(entries) and (entries[pos].get("aid"), entries[pos].get("iid")) == (aid, iid) else None
+                if e is not None:
+                    pos += 1
+                if acc is None or (aid, iid) not in target:
+                    continue
+                if e is None:
+                    self.fail("C17:multi-read-entry-missing", f"request {ids[:8]}…: no entry for the listed pair ({aid},{iid})")
+                    break
+                if aid in flagged:
+                    if "value" in e or e.get("status", 0) == 0:
+                        got = reached.get(id(e))
+                        self.fail(
+                            "C17:unavailable-read-returned-value",
+                            f"accessory {aid} is unavailable, yet the entry for ({aid},{iid}) in request {ids[:6]}… has status "
+                            f"{e.get('status', '<none>')} and the value of object #{rig.num(got) if got is not None else '?'} "
+                            f"(writes and events for the pair reach object #{target[(aid, iid)]})",
+                        )
+                elif id(e) in reached and rig.num(reached[id(e)]) != target[(aid, iid)]:
+                    self.fail(
+                        "C17:multi-read-resolves-differently",
+                        f"in request {ids[:6]}… the entry for ({aid},{iid}) carries the value of object "
+                        f"#{rig.num(reached[id(e)])}; writes and events for the pair reach object #{target[(aid, iid)]}",
+                    )
+                elif "value" not in e:
+                    self.fail(
+                        "C17:multi-read-listed-pair-failed",
+                        f"in request {ids[:6]}… the read of the listed pair ({aid},{iid}) of an available accessory failed "
+                        f"(status {e.get('status')})",
+                    )
+            out.append(view)
+        for key, acc in rig.accessories():
+            if hasattr(acc, "rig_available"):
+                acc.rig_available = True
+        return out
 
     def char_numbers(self):
         from pyhap.characteristic import Characteristic
@@ -315,15 +449,18 @@ def model_view(m: dict, char_nums, live_objs) -> dict:
         "accessories": accs,
         "managers": managers,
         "resolve": sorted(resolve, key=lambda e: e["obj"]),
+        "probes": m.get("probes", []),
     }
 
 
 def replay_history(h: dict, ctx: Optional[Ctx] = None):
     run = Run(ctx, h["bridge"], h["main"], h.get("mainAid", 1))
     try:
+        if h.get("probes") is not None:
+            run.h["probes"] = h["probes"]
         for op in h["ops"]:
             run.apply(op)
-        obs = run.observe()
+        obs = run.observe(ctx.rng if ctx is not None else None)
         return run, obs
     finally:
         run.rig.close()
@@ -430,7 +567,8 @@ def random_history(ctx: Ctx, pool, big: bool = False):
 
 
 def line_of(h: dict) -> dict:
-    return {"layer": "db", "op": "c17", "bridge": h["bridge"], "mainAid": h.get("mainAid", 1), "main": h["main"], "ops": h["ops"]}
+    return {"layer": "db", "op": "c17", "bridge": h["bridge"], "mainAid": h.get("mainAid", 1), "main": h["main"], "ops": h["ops"],
+            "probes": h.get("probes") or []}
 
 
 def nontrivial(h: dict, results: List[dict]) -> bool:
@@ -454,7 +592,16 @@ def minimise(h: dict, sig: str) -> dict:
         ops = delta_min(h["ops"], still, max_steps=120)
     except Exception:  # noqa: BLE001
         ops = h["ops"]
-    return {**h, "ops": ops}
+    h2 = {**h, "ops": ops}
+    # a single probe that still shows it, if any
+    for pr in h.get("probes") or []:
+        try:
+            run, _ = replay_history({**h2, "probes": [pr]})
+        except Exception:  # noqa: BLE001
+            continue
+        if any(s == sig for s, _ in run.fails):
+            return {**h2, "probes": [pr]}
+    return h2
 
 
 def judge(ctx: Ctx, run: Run):
@@ -472,7 +619,9 @@ def run(ctx: Ctx):
     st.rule = (
         "a case is one construction history (top-level bridge or standalone accessory built from shipped services; "
         "add-service, add-accessory with explicit/automatic aid, remove-accessory, IIDManager assign/remove_obj/remove_iid) "
-        "followed by GET /accessories and, for every listed characteristic pair, a GET, a PUT, a subscription and an event. "
+        "followed by GET /accessories and, for every listed characteristic pair, a GET, a PUT, a subscription and an event, "
+        "then multi-id GET /characteristics requests (runs of ids per accessory, shuffled, repeated, unknown accessories "
+        "interleaved, bridged accessories switched unavailable) judged per entry against the object the write/event paths reach. "
         "Non-trivial: the history contains a removal/re-assignment, a rejected operation, or an automatic aid beyond 7; "
         "distinct by the op list."
     )
@@ -488,7 +637,7 @@ def run(ctx: Ctx):
     for i in range(n_random + n_big):
         r = random_history(ctx, pool, big=i >= n_random)
         try:
-            o = r.observe()
+            o = r.observe(ctx.rng)
         finally:
             r.rig.close()
         runs.append(r)
@@ -508,7 +657,7 @@ def run(ctx: Ctx):
             continue
         mv = model_view(m, r.char_numbers(), None)
         if mv != o:
-            key = next((k for k in ("results", "accessories", "managers", "resolve") if mv.get(k) != o.get(k)), "?")
+            key = next((k for k in ("results", "accessories", "managers", "resolve", "probes") if mv.get(k) != o.get(k)), "?")
             ctx.disagree("c17-history:" + key, r.h, _short(mv.get(key)), _short(o.get(key)))
     for i in (0, 5, len(runs) - 1):
         r, o = runs[i], obs[i]
@@ -536,7 +685,7 @@ def search(ctx: Ctx):
     for i in range(1200):
         r = random_history(ctx, pool, big=i % 3 == 0)
         try:
-            r.observe()
+            r.observe(ctx.rng)
         finally:
             r.rig.close()
         judge(ctx, r)
